@@ -669,8 +669,12 @@ impl Stream for TStream {
     fn poll_next(self: Pin<&mut Self>, cx: &mut Context<'_>) -> Poll<Option<u32>> {
         let this = self.get_mut();
         let r = this.w.with(|i| {
+            let always = this.w.case.cfg.stream_always_register;
             let st = &mut i.streams[this.s];
             if let Some(v) = st.items.pop_front() {
+                if always {
+                    st.waker = Some(cx.waker().clone());
+                }
                 Poll::Ready(Some(v))
             } else if st.closed {
                 Poll::Ready(None)
@@ -687,8 +691,20 @@ impl Stream for TStream {
 
 impl Drop for TStream {
     fn drop(&mut self) {
-        self.w.with(|i| i.streams[self.s].drops += 1);
+        let root_holds = self.w.case.cfg.root_holds;
+        let early = self.w.with(|i| {
+            let st = &mut i.streams[self.s];
+            st.drops += 1;
+            // the pipe lets go of its input although the input has not ended, its consumer object certainly still has
+            // an owner (the root) and - for pipe() - the output stream has not been dropped
+            let obj_alive = root_holds && !i.root_released && st.pipe_obj.map(|o| !i.objs[o].dead && !i.objs[o].expect_panicked).unwrap_or(false);
+            !st.closed && obj_alive && !(st.is_pipe && st.out_dropped) && !i.panic_case
+        });
         self.w.hist(|| format!("stream s{} dropped", self.s));
+        if early {
+            let (prop, obj) = self.w.with(|i| (if i.streams[self.s].is_pipe { "C12" } else { "C11" }, i.streams[self.s].pipe_obj));
+            self.w.fail(prop, "input-stream-released-early", obj, None, format!("the pipe dropped its input stream s{} although the stream has not ended and the Desync is still alive: later items can never be processed", self.s));
+        }
     }
 }
 
@@ -708,6 +724,10 @@ impl Drop for FnToken {
 fn stream_event(w: &Arc<World>, s: usize, push: Option<u32>, close: bool) {
     let wk = w.with(|i| {
         let st = &mut i.streams[s];
+        if push.is_some() && st.closed {
+            // nothing is pushed into a stream that has ended (the root may have closed it in its final stage)
+            return None;
+        }
         if let Some(v) = push {
             st.items.push_back(v);
             st.pushed.push(v);
@@ -723,6 +743,7 @@ fn stream_event(w: &Arc<World>, s: usize, push: Option<u32>, close: bool) {
         // was a poll job of the consumer object in flight?
         st.waker.take()
     });
+    w.hist(|| format!("stream s{} event push={:?} close={} (waker registered: {})", s, push, close, wk.is_some()));
     if let Some(wk) = wk {
         wk.wake();
     }
@@ -1195,6 +1216,7 @@ impl CallerEnv {
                         i.streams[s2].used = true;
                         i.streams[s2].pipe_obj = Some(*o as usize);
                     });
+                    wake_batons(&w);
                     desync::pipe_in(arc, stream, move |p: &mut Payload, item: u32| {
                         let _t = &ftoken;
                         let fut = pipe_item(w2.clone(), id2, s2, p, item, body2.clone(), chs.clone());
@@ -1223,6 +1245,7 @@ impl CallerEnv {
                         i.streams[s2].depth = if *depth > 0 { *depth as usize } else { 5 };
                         i.streams[s2].pipe_obj = Some(*o as usize);
                     });
+                    wake_batons(&w);
                     let mut out = desync::pipe(arc, stream, move |p: &mut Payload, item: u32| {
                         let _t = &ftoken;
                         pipe_item(w2.clone(), id2, s2, p, item, body2.clone(), chs.clone())
@@ -1355,6 +1378,13 @@ impl CallerEnv {
             }
         }
         self.stage(Stage::Idle);
+    }
+}
+
+fn wake_batons(w: &Arc<World>) {
+    let waiters = w.with(|i| std::mem::take(&mut i.baton_waiters));
+    for t in waiters {
+        rt::unpark_nosched(t);
     }
 }
 
@@ -1522,6 +1552,15 @@ fn root_main(w: Arc<World>) {
             let w2 = w.clone();
             let prog = prog.clone();
             vthread::spawn_local(&format!("producer{}", si), move || {
+                // most items should arrive while the pipe exists: wait (a little) for the pipe to be created
+                loop {
+                    let go = w2.with(|i| i.streams[si].used || i.final_stage || i.callers.iter().all(|c| c.stage == Stage::Done));
+                    if go {
+                        break;
+                    }
+                    w2.with(|i| i.baton_waiters.push(rt::current()));
+                    vthread::park();
+                }
                 let mut next = w2.with(|i| i.streams[si].pushed.len() as u32);
                 for op in prog {
                     match op {
@@ -1536,6 +1575,25 @@ fn root_main(w: Arc<World>) {
                         POp::Close => {
                             vthread::yield_now();
                             stream_event(&w2, si, None, true);
+                        }
+                        POp::PushDuring => {
+                            loop {
+                                let go = w2.with(|i| {
+                                    let busy = i.streams[si].pipe_obj.map(|o| i.objs[o].occupant.is_some()).unwrap_or(false);
+                                    busy || i.final_stage
+                                });
+                                w2.hist(|| format!("producer s{} push-during check: go={}", si, go));
+                                if go {
+                                    break;
+                                }
+                                w2.with(|i| i.baton_waiters.push(rt::current()));
+                                vthread::park();
+                            }
+                            let closed = w2.with(|i| i.streams[si].closed);
+                            if !closed {
+                                next += 1;
+                                stream_event(&w2, si, Some(next), false);
+                            }
                         }
                     }
                 }
@@ -1573,7 +1631,10 @@ fn root_main(w: Arc<World>) {
             w.with(|i| i.callers[gidx].task = h.task_id());
         }
         if last_phase && !case.cfg.root_holds {
-            w.with(|i| i.root_stage = "root releases its handles".to_string());
+            w.with(|i| {
+                i.root_stage = "root releases its handles".to_string();
+                i.root_released = true;
+            });
             for o in 0..handles.len() {
                 if let Some(h) = handles[o].take() {
                     release_handle(&w, h, o, None);
@@ -1619,6 +1680,7 @@ fn root_main(w: Arc<World>) {
         }
     }
     oracle::final_quiescence(&w, &handles);
+    w.with(|i| i.root_released = true);
     // release what the root still holds; each last-owner drop must return and destroy the value
     let panicked: Vec<bool> = w.with(|i| i.objs.iter().map(|o| o.expect_panicked).collect());
     for o in 0..handles.len() {
@@ -1678,6 +1740,7 @@ pub fn run_case(case: &Case, opts: &RunOpts) -> Outcome {
         phase: 0,
         final_stage: false,
         panic_case: case_has_panic(&case),
+        root_released: false,
     };
     let cfg = rt::Config {
         max_steps: opts.max_steps,
